@@ -1,4 +1,4 @@
 Require Extraction.
 Require Import ExtrOcamlBasic.
-From Herc Require Import Base.Conv Plan.RunLifecycle.
-Extraction "c04run_model.ml" conv_anchor run_okb rl_exec1 rl_check final_okb rinit.
+From Herc Require Import Base.Conv Plan.RunLifecycle Plan.Syntax Plan.FastPlan.
+Extraction "c04run_model.ml" conv_anchor run_okb rl_exec1 rl_check final_okb rinit fast_c04 mkFA.
